@@ -63,7 +63,7 @@ func readEvents(path string) []event {
 type jobKey struct {
 	Path  []string
 	Forks []string
-	Chunk int // -1 for split/join
+	Chunk int    // -1 for split/join
 	Phase string // split chunk join
 }
 
@@ -203,8 +203,9 @@ func c01GenProgs(args []string) {
 }
 
 // obsLines renders a run as canonical observation lines:
-//   inv <path.joined> <phase> <args>     (sorted)
-//   outs <value>
+//
+//	inv <path.joined> <phase> <args>     (sorted)
+//	outs <value>
 func obsLines(dir string, res runResult) []string {
 	splitStages := map[string]bool{}
 	if b, err := os.ReadFile(filepath.Join(dir, "splits.txt")); err == nil {
